@@ -79,9 +79,9 @@ def run(ctx):
                       f"bounds, point coordinate and dx", key=name, where=loc(fi, node))
         st = {norm(n.targets[0]): norm(n.value) for n in lvloop[0].body if isinstance(n, ast.Assign)}
         ok = st.get("boxes") == "np.array(self.boxes[level])" and all(
-            st.get(f"box_matches_{k}[level]") == f"np.nonzero(box_match_{k})[0]" for k in ("exact", "inner", "outer"))
+            st.get(f"box_matches_{k}[level]") == f"np.where(box_match_{k})[0]" for k in ("exact", "inner", "outer"))
         ctx.check(ok, f"{P}.LEVEL-COH", site, "matches of a level are stored under that level, from that level's boxes",
-                  "per-level match bookkeeping changed", key="matches")
+                  f"per-level match bookkeeping is { {k: v for k, v in st.items() if 'match' in k or k == 'boxes'} }", key="matches")
     # finest matching level = last of the ascending filter; refusal path not swallowed
     fin = {k: v for k, v in e.items() if k.startswith("match_lv_")}
     ok = all(any(x == f"[lv for lv in box_matches_{k} if len(box_matches_{k}[lv]) != 0][-1]" for x in fin.get(f"match_lv_{k}", []))
